@@ -20,8 +20,9 @@ Definition hexval (c : N) : option N :=
   else if (65 <=? c) && (c <=? 70) then Some (c - 55)
   else None.
 
-(** a Unicode scalar value: in range and not a surrogate (lone surrogates and surrogate pairs
-    written as two escapes are outside this model: [None]) *)
+(** a Unicode scalar value: in range and not a surrogate (a lone surrogate is not a value; in
+    GraphQL strings a pair of escaped surrogates stands for one code point, see [lex_normal];
+    in template literals surrogate escapes are outside this model: [None]) *)
 Definition scalar_ok (n : N) : bool := (n <? 55296) || ((57343 <? n) && (n <=? 1114111)).
 
 Definition hex4 (a b c d : N) : option N :=
@@ -148,8 +149,27 @@ Fixpoint lex_normal (x : str) : option (str * str) :=
                   else match r3 with
                        | b :: c3 :: d :: r6 =>
                            match hex4 a b c3 d with
-                           | Some v => if scalar_ok v
-                                       then omap (fun p => (v :: fst p, snd p)) (lex_normal r6) else None
+                           | Some v =>
+                               if scalar_ok v
+                               then omap (fun p => (v :: fst p, snd p)) (lex_normal r6)
+                               else if (55296 <=? v) && (v <=? 56319) then
+                                 (* a leading surrogate must be followed by an escaped trailing surrogate:
+                                    the pair stands for one supplementary code point (2.9.4) *)
+                                 match r6 with
+                                 | b1 :: u1 :: a2 :: b2 :: c2 :: d2 :: r12 =>
+                                     if (b1 =? 92) && (u1 =? 117) then
+                                       match hex4 a2 b2 c2 d2 with
+                                       | Some lo =>
+                                           if (56320 <=? lo) && (lo <=? 57343)
+                                           then omap (fun p => (65536 + (v - 55296) * 1024 + (lo - 56320) :: fst p, snd p))
+                                                     (lex_normal r12)
+                                           else None
+                                       | None => None
+                                       end
+                                     else None
+                                 | _ => None
+                                 end
+                               else None
                            | None => None
                            end
                        | _ => None
